@@ -19,7 +19,7 @@ theorem finishBatch_sel (P : Pipe) (h : (finishBatch P).cpc = .sel) :
 theorem procBatch_sel (P : Pipe) (j : Job) (h : (procBatch P j).cpc = .sel) :
     ¬ ((procBatch P j).readerDone = true ∧ (procBatch P j).startIndex = (procBatch P j).linesRead) := by
   rcases procBatch_cases P j with hr | ⟨Q, _, hq⟩
-  · rw [hr] at h; contradiction
+  · rw [hr.1] at h; contradiction
   · rw [hq] at h ⊢; exact finishBatch_sel Q h
 
 structure PInv (P : Pipe) : Prop where
